@@ -203,6 +203,7 @@ pub fn add_jobs<'a>(cfg: &'a Cfg, prop: &'static str, jobs: &mut Vec<Box<dyn FnM
             "parsers" => (1_500_000, 4096),
             "simplify" => (1_500_000, 512),
             "natural" => (250_000, 512),
+            "history" => (60_000, 600),
             _ => (150_000, 512),
         };
         for shard in 0..3u64 {
